@@ -55,7 +55,7 @@ def _read_contract(cid, reqs):
         id=cid, func=LD + ".read", call="d.read(" + ", ".join(repr(r) for r in reqs) + ")", params=params,
         requires=["spec.encap.le(head, 8, 4) == 0"],
         setup=CONN + [f"t = spec.env.Transport({replies})", "d._sock = t"],
-        ensures=ens + [f"len(t.sent) == {1 if valid else 0}"], props=["C03", "C01"], max_paths=20000)
+        ensures=ens + [f"len(t.sent) == {1 if valid else 0}"], props=["C03", "C01"] + (["C13"] if len(valid) > 1 else []), max_paths=20000)
 
 
 _read_contract("read.one.d", ["d"])
@@ -128,7 +128,7 @@ def _write_contract(cid, reqs):
         id=cid, func=LD + ".write", call="d.write(" + ", ".join(args) + ")", params=params,
         requires=["spec.encap.le(head, 8, 4) == 0"],
         setup=CONN + [f"t = spec.env.Transport({replies})", "d._sock = t"],
-        ensures=ens + [f"len(t.sent) == {1 if valid else 0}"], props=["C03", "C02"], max_paths=20000)
+        ensures=ens + [f"len(t.sent) == {1 if valid else 0}"], props=["C03", "C02"] + (["C13"] if len(valid) > 1 else []), max_paths=20000)
 
 
 _write_contract("write.one.d", ["d"])
@@ -214,3 +214,16 @@ contract(
              "(bool(result[3]) and result[3].value == spec.logix.bit_of(spec.cip_codec.decode_int('DINT', d3), 5)) if st3 == 0 else not bool(result[3])",
              "[r.tag for r in result] == ['d', 'nope', 'arr[2]', 'd.5']"],
     props=["C03", "C01"], max_paths=40000)
+
+# the same bit twice in one call (and a plain write in between): every request gets its result, the last value wins
+contract(
+    id="write.bits.same_bit_twice", func=LD + ".write", call="d.write(('d.3', b1), ('d', v), ('d.3', b2))",
+    params={"use_ids": P.bool(), "head": P.bytes(len=46), "b1": P.bool(), "b2": P.bool(), "v": P.int(-2**31, 2**31 - 1), "st0": ST, "st1": ST},
+    requires=["spec.encap.le(head, 8, 4) == 0"],
+    setup=CONN + ["t = spec.env.Transport([spec.logix.multi_reply(head, [spec.logix.sub_reply(0x4d, st0)]), head + spec.logix.sub_reply(0x4e, st1)])",
+                  "d._sock = t", "m = spec.logix.rmw_masks(4, [(3, b1), (3, b2)])"],
+    ensures=["isinstance(result, list) and len(result) == 3", "len(t.sent) == 2",
+             "bool(result[0]) == (st1 == 0) and bool(result[2]) == (st1 == 0) and bool(result[1]) == (st0 == 0)",
+             "result[0].tag == 'd.3' and result[2].tag == 'd.3' and result[1].tag == 'd'",
+             "spec.encap.try_parse_frame(t.sent[1])[3][3] == spec.logix.rmw_request(" + PATH.format(tag="d", base="d") + ", 4, m[0], m[1])"],
+    props=["C03", "C02"], max_paths=20000)
